@@ -7,6 +7,7 @@ import (
 
 	"github.com/cedar-policy/cedar-go/internal/consts"
 	"github.com/cedar-policy/cedar-go/internal/extensions"
+	"github.com/cedar-policy/cedar-go/types"
 	"github.com/cedar-policy/cedar-go/x/exp/ast"
 )
 
@@ -164,7 +165,55 @@ func (n NodeTypeNot) marshalCedar(buf *bytes.Buffer) {
 
 func (n NodeTypeNegate) marshalCedar(buf *bytes.Buffer) {
 	buf.WriteRune('-')
+	// "-" directly followed by an integer token is read back as a negative literal, so "-1.a" would not
+	// be the negation of "1.a" (and "-0" would come back as the literal 0): parenthesise an operand that
+	// starts with an integer literal
+	if startsWithIntLiteral(n.NodeTypeNegate.Arg) {
+		marshalChildNode(primaryPrecedence+1, n.NodeTypeNegate.Arg, buf)
+		return
+	}
 	marshalChildNode(n.precedenceLevel(), n.NodeTypeNegate.Arg, buf)
+}
+
+// startsWithIntLiteral reports whether the rendering of n (without enclosing parentheses) begins with a
+// non-negative integer literal, i.e. whether the leftmost operand of a chain of postfix operators is one.
+func startsWithIntLiteral(n ast.IsNode) bool {
+	for {
+		switch v := n.(type) {
+		case ast.NodeValue:
+			l, ok := v.Value.(types.Long)
+			return ok && l >= 0
+		case ast.NodeTypeAccess:
+			n = v.Arg
+		case ast.NodeTypeContains:
+			n = v.Left
+		case ast.NodeTypeContainsAll:
+			n = v.Left
+		case ast.NodeTypeContainsAny:
+			n = v.Left
+		case ast.NodeTypeGetTag:
+			n = v.Left
+		case ast.NodeTypeHasTag:
+			n = v.Left
+		case ast.NodeTypeIsEmpty:
+			n = v.Arg
+		case ast.NodeTypeExtensionCall:
+			if !extensions.ExtMap[v.Name].IsMethod || len(v.Args) == 0 {
+				return false
+			}
+			n = v.Args[0]
+		default:
+			return false
+		}
+	}
+}
+
+// A negative integer literal renders with a leading minus sign, so it binds like a unary expression.
+func (n NodeValue) precedenceLevel() nodePrecedenceLevel {
+	if l, ok := n.Value.(types.Long); ok && l < 0 {
+		return unaryPrecedence
+	}
+	return primaryPrecedence
 }
 
 func canMarshalAsIdent(s string) bool {
